@@ -5,10 +5,12 @@
  *
  */
 
+#include <atomic>
+
 namespace opensmt {
 
 namespace {
-    bool globalStopFlag{false};
+    std::atomic<bool> globalStopFlag{false}; // written by another thread (notifyGlobalStop) while a solver polls it
 }
 
 void notifyGlobalStop() {
